@@ -285,4 +285,58 @@ def TS.runHistory (ts : TS) (storage : Key → StoRes) : List Tx → TS × List 
     let (ts'', outss) := ts'.runHistory storage rest
     (ts'', outs :: outss)
 
+
+/-! ### block level: `Transaction.Execute` and the loop of `Processor.executeTxs`, without fees
+
+Used by C05's block tie (real `Processor.Execute` with a balance handler that charges nothing
+and declares no sponsor keys). Actions are `chaintest.TestAction`s: declared keys, keys read in
+order, then key/value pairs written in order; the first failing access fails the action. -/
+
+structure Act where
+  decl : List (Key × Perm)
+  reads : List Key
+  writes : List (Key × Val)
+
+/-- the accesses of `TestAction.Execute`, in order -/
+def Act.ops (a : Act) : List VOp :=
+  a.reads.map VOp.get ++ a.writes.map (fun kv => VOp.insert kv.1 kv.2)
+
+/-- does the output mean the Go call returned a nil error? -/
+def Out.isOk : Out → Bool
+  | .val _ => true
+  | .ok => true
+  | _ => false
+
+/-- run accesses until one returns an error (`some` = that error) -/
+def View.runUntilFail (s : View) : List VOp → View × Option Out
+  | [] => (s, none)
+  | o :: rest =>
+    let (s', out) := s.step o
+    if out.isOk then s'.runUntilFail rest else (s', some out)
+
+/-- `Transaction.Execute` after the fee: `actionStart := ts.OpIndex()`, the actions in order, and
+`ts.Rollback(actionStart)` when one fails (`some` = the error recorded in the `Result`). -/
+def View.execTx (s : View) (acts : List Act) : View × Option Out :=
+  let actionStart := s.opIndex
+  match s.runUntilFail (acts.map Act.ops).flatten with
+  | (s', none) => (s', none)
+  | (s', some e) => (s'.rollback actionStart, some e)
+
+/-- the body of the closure in `Processor.executeTxs`, run in block order (the sequential
+reference the executor must be equivalent to, C01): scope = the transaction's own declared keys
+(`Transaction.StateKeys`; `none` = its error, which fails the whole block), storage = the parent
+restricted to those keys (what the fetcher hands over), `Execute`, `Commit`. -/
+def TS.execBlock (ts : TS) (parent : Key → Option Val) : List (List Act) → Option (TS × List (Option Out))
+  | [] => some (ts, [])
+  | tx :: rest =>
+    match Perm.stateKeys (tx.map Act.decl) with
+    | none => none
+    | some keys =>
+      let storage : Key → StoRes := fun k =>
+        if (keys k).isSome then (match parent k with | some v => .val v | none => .notFound) else .notFound
+      let (s, r) := (ts.newView keys.has storage).execTx tx
+      match s.commit.ts.execBlock parent rest with
+      | none => none
+      | some (ts', rs) => some (ts', r :: rs)
+
 end HyperModel.TState
